@@ -85,7 +85,7 @@ class TablerowNode(Node):
         character_count += buffer.write('<tr class="row1">\n')
         _break = False
 
-        with context.extend(namespace):
+        with context.carry_loop(length), context.extend(namespace):
             for item in drop:
                 namespace[name] = item
                 character_count += buffer.write(f'<td class="col{drop.col}">')
@@ -142,7 +142,7 @@ class TablerowNode(Node):
         character_count += buffer.write('<tr class="row1">\n')
         _break = False
 
-        with context.extend(namespace):
+        with context.carry_loop(length), context.extend(namespace):
             for item in drop:
                 namespace[name] = item
                 character_count += buffer.write(f'<td class="col{drop.col}">')
